@@ -52,7 +52,8 @@ class NodeProc(object):
         timer.daemon = True
         timer.start()
         try:
-            self.p.stdin.write((json.dumps({"m": m, "p": p or {}}) + "\n").encode("utf-8"))
+            payload = json.dumps({"m": m, "p": p or {}}).encode("utf-8")
+            self.p.stdin.write(b"%d\n" % len(payload) + payload)
             self.p.stdin.flush()
             line = self.p.stdout.readline()
         except (BrokenPipeError, OSError):
@@ -384,6 +385,10 @@ def gen_item(rng, tier, ver="3.7"):
         if rng.chance(0.2):
             g["firstlineno"] = rng.choice([0, 0, 1, 2 ** 31 - 2000])  # absolute line numbers 0, or near the C int limit
         item["graft"] = g
+    if rng.chance(0.25):
+        # producer history: the in-memory round trip of docs/usage.md (to_json_data -> from_json_data, no text in
+        # between) on the same value BEFORE the document that is sent is made
+        item["inmem_first"] = rng.choice([1, 1, 2])
     return item
 
 
@@ -427,7 +432,15 @@ def gen_exchange_plan(seed, tier, prop):
                     hops.append({"ver": rng.choice(consumers), "hashseed": rng.randint(0, 2 ** 32 - 1), "faults": gen_hop_faults(rng, fault_free)})
                 docs.append({"producer": pi, "item": ii, "normalized": normalized, "hops": hops,
                              "j3_hashseed": rng.randint(0, 2 ** 32 - 1), "j3_transcode": gen_hop_faults(rng, fault_free).get("transcode")})
-    return {"kind": "exchange", "producers": producers, "docs": docs[:6], "order_seed": rng.randint(0, 2 ** 32), "fault_free": fault_free}
+    docs = docs[:6]
+    if any(len(it["prog"].get("src") or "") > 100000 for p in producers for it in p["items"]):
+        # a 2^16-entry program: every hop (and every schema validation) of its multi-megabyte document costs
+        # tens of seconds; such a run gets one document and at most two hops
+        big = [d for d in docs if len(producers[d["producer"]]["items"][d["item"]]["prog"].get("src") or "") > 100000][:1]
+        for d in big:
+            d["hops"] = d["hops"][:2]
+        docs = big + [d for d in docs if d not in big and len(producers[d["producer"]]["items"][d["item"]]["prog"].get("src") or "") <= 100000]
+    return {"kind": "exchange", "producers": producers, "docs": docs, "order_seed": rng.randint(0, 2 ** 32), "fault_free": fault_free}
 
 
 # ---------------------------------------------------------------------------------------
@@ -490,6 +503,13 @@ def monitors_c07(log, text, st, where):
         log.violate("C07", "J2-schema-invalid", "fastjsonschema:" + norm_path(loc.replace("data.", "", 1).replace("data", "", 1)) + ":" + str(getattr(e, "rule", "")),
                     {"where": where, "msg": str(e)[:200]})
         return False
+    if len(text) > 1000000:
+        # multi-megabyte message (a 2^16-entry program): the pure-Python second validator needs ~10 s for it, so
+        # only the first such message of a run goes through both validators; the rest rely on the compiled one
+        if log.stats.get("huge_messages_validated_twice", 0) >= 1:
+            log.count("huge_messages_validated_by_compiled_validator_only")
+            return True
+        log.count("huge_messages_validated_twice")
     r = st["validator"].validate(text)
     if not r["valid"]:
         log.violate("C07", "J2-schema-invalid", "jsonschema:" + r.get("schema_path", ""), {"where": where, "path": r.get("path"), "msg": r.get("msg")})
@@ -515,9 +535,13 @@ def exec_exchange(plan, tree, prop, log=None):
                     log.count("produce_failed:" + r["why"].split(":")[0])
                     if want_c07 and r["why"].startswith("to_json_data-raises"):
                         log.violate("C07", "J0-to_json_data-raises", r["why"].split(":")[1], {"why": r["why"], "item": item.get("prog", {}).get("name")})
+                    if want_c07 and r["why"].startswith("document-not-plain-json"):
+                        log.violate("C07", "J0-document-not-plain-json", r["why"].split(":")[1], {"why": r["why"], "item": item.get("prog", {}).get("name")})
                     continue
                 produced[(pi, ii)] = r
                 log.count("documents_produced", 2)
+                if item.get("inmem_first"):
+                    log.count("fault_producer_in_memory_round_trip_first")
         # messages in flight: (doc index, hop level, text)
         state = {}
         for di, d in enumerate(plan["docs"]):
@@ -665,10 +689,17 @@ def gen_cli_plan(seed, tier):
             src = rng.choice(workload.REPO_EXAMPLES)[1]
         if "\r" in src or "\x00" in src:
             src = "def f(a, *b):\n    'doc'\n    return a in {1, None}\n"
+        if kind in ("c", "e") and len(src.encode("utf-8", "surrogatepass")) > 50000:
+            # one argv string is limited to 128 KiB by the kernel (execve fails with E2BIG): a program that large
+            # can only be given as a file
+            kind = "file"
     plan = {"kind": "cli", "ver": ver, "hashseed": hs, "oracle_hashseed": hs if same_seed else rng.randint(0, 2 ** 32 - 1), "flags": flags,
             "source_kind": kind, "src": src, "module": (rng.choice(CLI_MODULES) if rng.chance(0.5) else rng.choice(["custom:cookie", "custom:pyc", "custom:zip", "custom:pkgpath"])) if kind == "m" else None,
             "warm": rng.chance(0.3), "warm_n": rng.randint(2, 3), "warm_other": {k: rng.chance(0.5) for k in OUT_FLAGS},
-            "e_bytes": kind == "e" and rng.chance(0.25), "attached": rng.chance(0.2)}
+            "e_bytes": kind == "e" and rng.chance(0.25), "attached": rng.chance(0.2),
+            # how the -e expression builds the program text: the documented helper name `linesep` used at the top
+            # level, inside a generator expression / lambda (nested scopes), next to builtins
+            "e_shape": rng.choice(["concat", "concat", "join", "genexpr", "lambda", "builtin"])}
     if kind == "file" and not invalid and rng.chance(0.35):
         # durable state between invocations: the SAME path is rewritten with another program of the same
         # size and (simulated clock) the same modification time, then inspected again
@@ -734,8 +765,20 @@ def cli_argv(plan, workdir):
 
         return out + ["-e", repr(raw)], {"source_kind": "e", "source_b64": base64.b64encode(raw).decode("ascii"), "filename": "<string>", "flags": flags}
     if kind == "e":
-        expr = " + linesep + ".join(repr(line) for line in src.split("\n"))
-        expected_src = os.linesep.join(src.split("\n"))
+        lines = src.split("\n")
+        shape = plan.get("e_shape", "concat")
+        listing = "[" + ", ".join(repr(line) for line in lines) + "]"
+        if shape == "join":
+            expr = "linesep.join(" + listing + ")"
+        elif shape == "genexpr":
+            expr = "''.join(zz_l + linesep for zz_l in [" + ", ".join(repr(line) for line in lines[:-1]) + "]) + " + repr(lines[-1])
+        elif shape == "lambda":
+            expr = "(lambda zz_t: linesep.join(zz_t))(" + listing + ")"
+        elif shape == "builtin":
+            expr = "str(linesep).join(list(map(str, " + listing + ")))"
+        else:
+            expr = " + linesep + ".join(repr(line) for line in lines)
+        expected_src = os.linesep.join(lines)
         if plan.get("attached"):
             return out + ["-e" + expr], {"source_kind": "e", "source": expected_src, "filename": "<string>", "flags": flags}
         return out + ["-e", expr], {"source_kind": "e", "source": expected_src, "filename": "<string>", "flags": flags}
@@ -919,6 +962,8 @@ def exec_cli(plan, tree, log=None):
             log.count("fault_value_attached_to_short_option")
         if plan.get("e_bytes") and plan["source_kind"] == "e" and "sources" not in plan:
             log.count("fault_e_expression_evaluates_to_bytes_with_coding_cookie")
+        if plan["source_kind"] == "e" and not plan.get("e_bytes") and "sources" not in plan and plan.get("e_shape") in ("genexpr", "lambda"):
+            log.count("fault_e_expression_uses_linesep_in_nested_scope")
         if inv:
             log.count("fault_empty_source")
         elif plan["source_kind"] in ("c", "e") and "\\n" in (plan.get("src") or ""):
